@@ -1131,3 +1131,390 @@ Proof.
     destruct (existsb is_addhack (pending s1)) eqn:EE; auto. apply existsb_exists in EE. destruct EE as (f & Hf & Hh).
     specialize (Cna _ Hf). destruct f; cbn in *; discriminate.
 Qed.
+
+(* ------------------------------------------------------------------ assembling the step *)
+Lemma post_inv0 s s' : Xinv s -> Post s s' -> Inv0 s'.
+Proof.
+  intros X (K & Kd & C & E1 & E2 & E3 & E4). unfold Inv0. split; [exact K|split; [exact Kd|split; [exact C|]]]. unfold Xinv in *. rewrite E1, E2, E3, E4. exact X.
+Qed.
+
+Lemma Cc_map ex al cn cs q f :
+  (forall o, cst (f o) = cst o /\ calive (f o) = calive o /\ creg (f o) = creg o /\ ccb (f o) = ccb o /\ cuser (f o) = cuser o) ->
+  Cc ex al cn cs q -> Cc ex al cn (map f cs) q.
+Proof.
+  intros Hf C. cdestr C.
+  assert (N : forall c o', nth_error (map f cs) c = Some o' -> exists o, nth_error cs c = Some o /\ o' = f o).
+  { intros c o'. rewrite nth_error_map. destruct (nth_error cs c) as [o|]; cbn; [intros [= <-]; eauto|discriminate]. }
+  assert (R : forall c, refsC cn (map f cs) q c = refsC cn cs q c).
+  { intros c. unfold refsC. rewrite nth_error_map. destruct (nth_error cs c) as [o|]; cbn; auto. destruct (Hf o) as (_&_&_&_&->). auto. }
+  split; auto.
+  - intros c E. destruct (Ccn _ E) as (o & H1 & H2 & H3 & H4). exists (f o). rewrite nth_error_map, H1. cbn.
+    destruct (Hf o) as (-> & -> & _ & -> & _). auto.
+  - intros c o' H. destruct (N _ _ H) as (o & H1 & ->). destruct (Hf o) as (-> & -> & _ & -> & _). apply (Ccb _ _ H1).
+  - intros c o' H. destruct (N _ _ H) as (o & H1 & ->). destruct (Hf o) as (-> & -> & -> & _ & ->). apply (Cst _ _ H1).
+  - intros c o' H. destruct (N _ _ H) as (o & H1 & ->). destruct (Hf o) as (-> & -> & -> & _ & _). apply (Cdr _ _ H1).
+  - intros c o' H. rewrite R. destruct (N _ _ H) as (o & H1 & ->). destruct (Hf o) as (-> & -> & -> & _ & _). apply (Crf _ _ H1).
+  - intros c o' H. rewrite R. destruct (N _ _ H) as (o & H1 & ->). destruct (Hf o) as (_ & -> & _). apply (Cdd _ _ H1).
+  - intros c Hi. destruct (Cff _ Hi) as (o & H1 & H2). exists (f o). rewrite nth_error_map, H1. cbn. destruct (Hf o) as (_&_&_& -> &_). auto.
+  - intros c Hi. destruct (Cfd _ Hi) as (o & H1 & H2). exists (f o). rewrite nth_error_map, H1. cbn. destruct (Hf o) as (-> &_). auto.
+  - intros c Hi. destruct (Cfs _ Hi) as (o & H1 & H2 & H3). exists (f o). rewrite nth_error_map, H1. cbn. destruct (Hf o) as (-> & -> &_). auto.
+Qed.
+
+Lemma run_functor_I s f r :
+  Inv s -> pending s = f :: r -> wpT (run_functor (set_pending s r) f) Inv0.
+Proof.
+  intros (K & Kd & St & C & Cr & X) Hp.
+  destruct f.
+  - eapply (wpT_mono _ (Post s)); [intros s' P; eapply post_inv0; eauto|]. apply run_FStart_I; auto.
+  - eapply (wpT_mono _ (Post s)); [intros s' P; eapply post_inv0; eauto|]. apply run_FStop_I; auto.
+  - eapply (wpT_mono _ (Post s)); [intros s' P; eapply post_inv0; eauto|]. apply run_FReset_I; auto.
+  - eapply (wpT_mono _ (Post s)); [intros s' P; eapply post_inv0; eauto|]. apply run_FConnDestroyed_I; auto.
+  - eapply (wpT_mono _ (Post s)); [intros s' P; eapply post_inv0; eauto|]. apply run_FForceClose_I; auto.
+  - exfalso. destruct C as [_ C]. destruct C as [Cna _ _ _ _ _ _ _ _ _ _ _]. specialize (Cna (FSetCloseCb c)). rewrite Hp in Cna. specialize (Cna (or_introl eq_refl)). discriminate.
+  - eapply (wpT_mono _ (Post s)); [intros s' P; eapply post_inv0; eauto|]. apply run_FShutdown_I; auto.
+  - exfalso. destruct C as [_ C]. destruct C as [Cna _ _ _ _ _ _ _ _ _ _ _]. specialize (Cna (FAddHack due)). rewrite Hp in Cna. specialize (Cna (or_introl eq_refl)). discriminate.
+Qed.
+
+Lemma run_one_I s : Inv s -> wpT (run_one s) Inv.
+Proof.
+  intros I. unfold run_one. destruct (pending s) as [|f r] eqn:Hp; [apply wpT_ret; auto|].
+  apply finish_I. apply run_functor_I; auto.
+Qed.
+
+Lemma run_n_I n : forall s, Inv s -> wpT (run_n n s) Inv.
+Proof.
+  induction n as [|n IH]; intros s I; cbn [run_n]; [apply wpT_ret; auto|].
+  apply wpT_bind. eapply wpT_mono; [|apply run_one_I; auto]. intros s1 I1. apply IH; auto.
+Qed.
+
+(* ---- find_down / find_user *)
+Lemma find_down_spec l : forall i acc c,
+  find_down l i acc = Some c ->
+  acc = Some c \/ exists o, nth_error l (c - i) = Some o /\ (i <= c)%nat /\ calive o = true /\ creg o = true /\ c_live (cst o) = true.
+Proof.
+  induction l as [|x r IH]; intros i acc c; cbn; auto.
+  intros H. apply IH in H. destruct H as [H|(o & H1 & H2 & H3)].
+  - destruct (calive x && creg x && c_live (cst x) && negb (cfresh x)) eqn:E; auto. injection H as <-. right.
+    exists x. rewrite Nat.sub_diag. cbn. apply andb_prop in E. destruct E as [E _]. apply andb_prop in E. destruct E as [E E3]. apply andb_prop in E. destruct E. auto.
+  - right. exists o. destruct (c - i)%nat as [|k] eqn:Ek; [lia|]. cbn. replace k with (c - S i)%nat by lia. repeat split; auto; try lia; tauto.
+Qed.
+Lemma find_user_none l : forall i, find_user l i = None -> forall c o, nth_error l c = Some o -> cuser o = 0%nat.
+Proof.
+  induction l as [|x r IH]; intros i H [|c] o; cbn [find_user nth_error] in *; try discriminate.
+  - intros [= <-]. destruct (Nat.ltb_spec 0 (cuser x)); [discriminate H|lia].
+  - destruct (0 <? cuser x)%nat; [discriminate H|]. eapply IH; eauto.
+Qed.
+Lemma find_user_some l : forall i c, find_user l i = Some c -> exists o, nth_error l (c - i) = Some o /\ (i <= c)%nat /\ (0 < cuser o)%nat.
+Proof.
+  induction l as [|x r IH]; intros i c; cbn [find_user]; [discriminate|].
+  destruct (Nat.ltb_spec 0 (cuser x)) as [E|E].
+  - intros [= <-]. exists x. rewrite Nat.sub_diag. cbn. auto.
+  - intros H. destruct (IH _ _ H) as (o & H1 & H2 & H3). exists o. destruct (c - i)%nat as [|k] eqn:Ek; [lia|]. cbn. replace k with (c - S i)%nat by lia. auto with arith.
+Qed.
+
+(* ------------------------------------------------------------------ timers *)
+Lemma sameC_trans_nil s1 s2 s3 : sameC s1 s2 [] -> sameC s2 s3 [] -> sameC s1 s3 [].
+Proof.
+  unfold sameC. rewrite !app_nil_r. intros (A1&A2&A3&A4&A5&A6&A7&A8&A9&A10&A11) (B1&B2&B3&B4&B5&B6&B7&B8&B9&B10&B11).
+  repeat split; congruence.
+Qed.
+
+Lemma fire_all_I l : forall s, Kinv s -> Kdc s -> k_dead s = false ->
+  (length (filter is_retry_timer l) <= 1)%nat ->
+  (length (filter is_retry_timer l) <> 0%nat -> k_state s = KDisconnected /\
+     (k_connect s = true -> alive s = true /\ k_chan s = None /\ nretry s = 0%nat /\ xc s = false /\ nstart (pending s) = 0%nat /\ connection s = None)) ->
+  wpT (fire_all l s) (fun s' => Kinv s' /\ Kdc s' /\ sameC s s' []).
+Proof.
+  induction l as [|[d k] r IH]; intros s K Kd Hd Hle Hpre; cbn [fire_all].
+  - apply wpT_ret. split; auto. split; auto. unfold sameC. rewrite app_nil_r. repeat split; auto.
+  - apply wpT_bind. unfold fire. cbn [snd]. destruct k; cbn [filter is_retry_timer snd length] in Hle, Hpre.
+    + destruct Hpre as [Hs Hk]; [lia|].
+      eapply wpT_mono; [|apply startInLoop_K; auto].
+      intros s' (K' & Kd' & SC).
+      eapply wpT_mono; [|apply (IH s'); auto].
+      * intros s'' (K2 & Kd2 & SC2). split; auto. split; auto. eapply sameC_trans_nil; eauto.
+      * destruct SC as (_&_&_&_&_&E&_). congruence.
+      * lia.
+      * intros N. lia.
+    + apply (IH s); auto.
+Qed.
+
+Lemma filter_len_split {A} (p q : A -> bool) l :
+  length (filter p l) = (length (filter p (filter q l)) + length (filter p (filter (fun x => negb (q x)) l)))%nat.
+Proof. induction l as [|x r IH]; cbn; auto. destruct (q x); cbn; destruct (p x); cbn; lia. Qed.
+Lemma filter_len_insert p x l : length (filter p (insert_due x l)) = length (filter p (x :: l)).
+Proof.
+  induction l as [|y r IH]; cbn; auto. destruct (fst x <? fst y); cbn; auto.
+  cbn in IH. destruct (p y); cbn; rewrite IH; destruct (p x); cbn; lia.
+Qed.
+Lemma filter_len_sort p l : length (filter p (sort_due l)) = length (filter p l).
+Proof.
+  unfold sort_due. induction l as [|x r IH]; cbn; auto. rewrite filter_len_insert. cbn. destruct (p x); cbn; lia.
+Qed.
+Lemma filter_len_le {A} (p : A -> bool) l : (length (filter p l) <= length l)%nat.
+Proof. induction l as [|y r IH]; cbn; auto. destruct (p y); cbn; lia. Qed.
+Lemma filter_all {A} (p : A -> bool) l : length (filter p l) = length l -> forall x, In x l -> p x = true.
+Proof.
+  induction l as [|y r IH]; cbn; [tauto|]. pose proof (filter_len_le p r). destruct (p y) eqn:E; cbn; intros H0 x [<-|Hi]; auto; try lia.
+Qed.
+Lemma filter_all_len {A} (p : A -> bool) l : (forall x, In x l -> p x = true) -> length (filter p l) = length l.
+Proof.
+  induction l as [|y r IH]; cbn; auto. intros H. rewrite (H y); auto. cbn. rewrite IH; auto.
+Qed.
+Lemma min_due_nonempty l t : min_due l = Some t -> l <> [].
+Proof. destruct l; cbn; [discriminate|congruence]. Qed.
+
+Lemma TimerFire_I s t0 :
+  Inv s -> timely s = true -> min_due (timers s) = Some t0 ->
+  let now' := Z.max (now s) t0 in
+  wpT (fire_all (sort_due (filter (fun t => fst t <=? now') (timers s)))
+                (set_now (set_timers s (filter (fun t => now' <? fst t) (timers s))) now')) Inv0.
+Proof.
+  intros (K & Kd & St & C & Cr & X) Ht Hm now'.
+  set (rem := filter (fun t => now' <? fst t) (timers s)).
+  set (exp := filter (fun t => fst t <=? now') (timers s)).
+  set (s1 := set_now (set_timers s rem) now').
+  pose proof K as K0. kdestr K0.
+  assert (Tne : timers s <> []) by (eapply min_due_nonempty; eauto).
+  assert (Hd : k_dead s = false). { destruct (k_dead s) eqn:E; auto. destruct (Kkd eq_refl) as (_ & T & _). congruence. }
+  unfold timely in Ht. rewrite Hm in Ht. apply andb_prop in Ht. destruct Ht as [Ht1 Ht2].
+  assert (Hrc : count_rc (pending s) = 0%nat). { apply existsb_count_rc. destruct (existsb is_FReset (pending s)); auto; discriminate. }
+  assert (Erem : rem = filter (fun t => negb (fst t <=? now')) (timers s)).
+  { unfold rem. apply filter_ext. intros t. rewrite Z.leb_antisym. rewrite negb_involutive. reflexivity. }
+  assert (Hsplit : nretry s = (length (filter is_retry_timer exp) + nretry s1)%nat).
+  { unfold nretry. cbn. rewrite Erem. apply filter_len_split. }
+  assert (K1 : Kinv s1).
+  { split; cbn; auto.
+    - intros N. apply Krt. lia.
+    - lia.
+    - intros A. specialize (Khk A). pose proof (filter_all _ _ Khk) as All.
+      unfold nretry. cbn. apply filter_all_len. intros x Hx. apply All. unfold rem in Hx. apply filter_In in Hx. tauto.
+    - intros D. congruence.
+    - intros H. destruct (Kxc H) as [Q Dl]. split; auto. rewrite quiet_spec in *. cbn. intuition; lia.
+    - intros A D T. rewrite A in Ht2. cbn in Ht2. rewrite existsb_has_k in Ht2.
+      destruct (has_k (pending s)); auto. cbn in Ht2. fold rem in Ht2.
+      assert (existsb (fun t => Z.max (now s) t0 <? fst t) (timers s) = false); [|congruence].
+      destruct (existsb (fun t => Z.max (now s) t0 <? fst t) (timers s)) eqn:EE; auto.
+      apply existsb_exists in EE. destruct EE as (x & Hx1 & Hx2).
+      assert (In x rem) by (apply filter_In; auto). cbn in T. rewrite T in H. destruct H. }
+  assert (Kd1 : Kdc s1) by exact Kd.
+  eapply (wpT_mono _ (fun s' => Kinv s' /\ Kdc s' /\ sameC s1 s' [])).
+  - intros s' (K' & Kd' & SC).
+    assert (C1 : Cinv s1) by exact C.
+    pose proof (sameC_post _ _ _ K' Kd' SC nil_neutral C1) as P.
+    eapply (post_inv0 s); auto; unfold Post in *; cbn in P; exact P.
+  - apply fire_all_I; auto.
+    + rewrite filter_len_sort. fold exp. lia.
+    + rewrite filter_len_sort. fold exp. intros N.
+      assert (Nr : nretry s <> 0%nat) by lia.
+      assert (Hs : k_state s = KDisconnected) by auto.
+      split; auto. cbn. intros Hk.
+      assert (Al : alive s = true). { destruct (alive s) eqn:A; auto. specialize (Kdk eq_refl Hd Tne). congruence. }
+      assert (Hc : k_chan s = None). { destruct (k_chan s) as [[i [|]]|]; auto; destruct Kch as [Kc1 Kc2]; try congruence; lia. }
+      assert (Hcn : connection s = None). { destruct (connection s) eqn:E; auto. assert (k_state s = KConnected) by (apply Kcn; congruence). congruence. }
+      assert (Hx : xc s = false /\ nstart (pending s) = 0%nat).
+      { destruct (xc s) eqn:Xc.
+        - destruct (Kxc (or_introl eq_refl)) as [Q _]. apply quiet_spec in Q. tauto.
+        - split; auto. destruct (nstart (pending s)) eqn:Ns; auto.
+          destruct (Kxc (or_intror (Nat.neq_succ_0 _))) as [Q _]. apply quiet_spec in Q. tauto. }
+      repeat split; try tauto. lia.
+Qed.
+
+(* ------------------------------------------------------------------ one op *)
+Lemma existsb_nstart q : existsb is_FStart q = false -> nstart q = 0%nat.
+Proof.
+  unfold nstart. induction q as [|f r IH]; cbn; auto. intros H. apply orb_false_elim in H. destruct H as [-> H]. auto.
+Qed.
+Lemma api_ok s : user_api_ok s = true -> alive s = true /\ dsnap s = None.
+Proof. unfold user_api_ok. intros H. apply andb_prop in H. destruct H as [H1 H2]. split; auto. destruct (dsnap s); auto; discriminate. Qed.
+Lemma negb_false_true b : negb b = false -> b = true.
+Proof. destruct b; auto. Qed.
+
+Ltac flagK K := (eapply Kinv_same; [exact K|unfold sameK; cbn; repeat split; auto]).
+Ltac inv0 K Kd C X := unfold Inv0; split; [|split; [|split; [|try exact X]]].
+
+Lemma step_core_I s o : Inv s -> contract s o = true ->
+  match step_core s o with Some m => wpT m Inv0 | None => True end.
+Proof.
+  intros HI Hc. pose proof HI as (K & Kd & St & C & Cr & X).
+  assert (P0 : forall s', Post s s' -> Inv0 s') by (intros s'; apply post_inv0; auto).
+  assert (Hnd : alive s = true -> k_dead s = false).
+  { intros A. destruct (k_dead s) eqn:E; auto. destruct K as [_ _ _ _ _ _ Kkd _ _ _]. destruct (Kkd E). congruence. }
+  destruct o; cbn [step_core].
+  - (* Connect *)
+    destruct (negb (user_api_ok s)) eqn:U; [exact I|]. apply negb_false_true in U. destruct (api_ok _ U) as [Al _].
+    cbn in Hc. unfold idle in Hc. apply andb_prop in Hc. destruct Hc as [Hc H4]. apply andb_prop in Hc. destruct Hc as [Hc H3].
+    apply andb_prop in Hc. destruct Hc as [H1 H2]. apply quiet_spec in H1. destruct H1 as (Q1 & Q2 & Q3 & Q4).
+    apply wpT_bind_some.
+    set (s1 := set_k_connect (set_c_connect s true) true).
+    assert (K1 : Kinv s1). { pose proof K as K0. kdestr K0. split; cbn; auto. intros A. congruence. }
+    eapply wpT_mono; [|apply startInLoop_K; auto].
+    + intros s' (K' & Kd' & SC). apply P0. assert (C1 : Cinv s1) by exact C.
+      pose proof (sameC_post _ _ _ K' Kd' SC nil_neutral C1) as P. unfold Post in *. cbn in P. exact P.
+    + intros _. cbn. repeat split; auto. destruct (xc s); auto; discriminate.
+      apply existsb_nstart. destruct (existsb is_FStart (pending s)); auto; discriminate.
+  - (* Disconnect *)
+    destruct (negb (user_api_ok s)) eqn:U; [exact I|].
+    set (s1 := set_c_connect s false).
+    assert (K1 : Kinv s1) by flagK K.
+    destruct (connection s1) as [c|] eqn:Hcn.
+    + eapply wpT_mono; [|apply (conn_shutdown_I s1 c true); auto; exact C].
+      intros s' P. apply P0. unfold Post in *. cbn in P. exact P.
+    + apply wpT_ret. inv0 K Kd C X; auto; exact C.
+  - (* Stop *)
+    destruct (negb (user_api_ok s)) eqn:U; [exact I|]. apply negb_false_true in U. destruct (api_ok _ U) as [Al _].
+    cbn. inv0 K Kd C X.
+    + pose proof K as K0. kdestr K0. split; cbn; rewrite ?count_rc_snoc, ?nstart_snoc, ?has_k_snoc; cbn; rewrite ?Nat.add_0_r; auto; try congruence;
+        try (intros D; specialize (Hnd Al); congruence).
+    + apply Kdc_alive. exact Al.
+    + destruct C as [D C]. split; [exact D|]. cbn. apply Cc_app_k; auto. intros f [<-|[]]. reflexivity.
+  - (* EnableRetry *)
+    destruct (negb (user_api_ok s)) eqn:U; [exact I|]. apply wpT_ret. inv0 K Kd C X; [flagK K|exact Kd|exact C].
+  - (* Destroy *)
+    destruct (negb (user_api_ok s) || xc s || xs s || xd s) eqn:U; [exact I|].
+    apply orb_false_elim in U. destruct U as [U U4]. apply orb_false_elim in U. destruct U as [U U3]. apply orb_false_elim in U. destruct U as [U U2].
+    apply negb_false_true in U. destruct (api_ok _ U) as [Al _].
+    eapply wpT_mono; [|apply destroy_I; auto].
+    intros s' (K' & Kd' & C' & E1 & E2 & E3 & E4). unfold Inv0. split; [exact K'|split; [exact Kd'|split; [exact C'|]]].
+    unfold Xinv. intros _. repeat split; congruence.
+  - (* XConnectFlags *)
+    destruct (negb (user_api_ok s) || xc s) eqn:U; [exact I|].
+    apply orb_false_elim in U. destruct U as [U U2]. apply negb_false_true in U. destruct (api_ok _ U) as [Al _].
+    cbn in Hc. unfold idle in Hc. apply andb_prop in Hc. destruct Hc as [Hc H4]. apply andb_prop in Hc. destruct Hc as [Hc H3].
+    apply andb_prop in Hc. destruct Hc as [H1 H2]. apply Z.eqb_eq in H4.
+    assert (Hn : nstart (pending s) = 0%nat) by (apply existsb_nstart; destruct (existsb is_FStart (pending s)); auto; discriminate).
+    cbn. inv0 K Kd C X.
+    + pose proof K as K0. kdestr K0. split; cbn; rewrite ?Hn; auto; try congruence;
+        try (intros D; specialize (Hnd Al); congruence).
+    + apply Kdc_alive. exact Al.
+    + exact C.
+    + unfold Xinv. cbn. congruence.
+  - (* XConnectEnq *)
+    destruct (negb (user_api_ok s) || negb (xc s)) eqn:U; [exact I|].
+    apply orb_false_elim in U. destruct U as [U U2]. apply negb_false_true in U. apply negb_false_true in U2. destruct (api_ok _ U) as [Al _].
+    apply wpT_ret. inv0 K Kd C X.
+    + pose proof K as K0. kdestr K0. rewrite U2 in Kxc1. destruct (Kxc (or_introl U2)) as [Q Dl].
+      split; cbn; rewrite ?count_rc_snoc, ?nstart_snoc, ?has_k_snoc; cbn; rewrite ?Nat.add_0_r; auto; try congruence; try lia;
+        try (intros D; specialize (Hnd Al); congruence).
+    + apply Kdc_alive. exact Al.
+    + destruct C as [D C]. split; [exact D|]. cbn. apply Cc_app_k; auto. intros f [<-|[]]. reflexivity.
+    + unfold Xinv. cbn. congruence.
+  - (* XStopFlags *)
+    destruct (negb (user_api_ok s) || xs s) eqn:U; [exact I|].
+    apply orb_false_elim in U. destruct U as [U U2]. apply negb_false_true in U. destruct (api_ok _ U) as [Al _].
+    cbn. inv0 K Kd C X.
+    + pose proof K as K0. kdestr K0. split; cbn; auto; try congruence.
+    + apply Kdc_alive. exact Al.
+    + exact C.
+    + unfold Xinv. cbn. congruence.
+  - (* XStopEnq *)
+    destruct (negb (user_api_ok s) || negb (xs s)) eqn:U; [exact I|].
+    apply orb_false_elim in U. destruct U as [U U2]. apply negb_false_true in U. destruct (api_ok _ U) as [Al _].
+    apply wpT_ret. inv0 K Kd C X.
+    + pose proof K as K0. kdestr K0. split; cbn; rewrite ?count_rc_snoc, ?nstart_snoc, ?has_k_snoc; cbn; rewrite ?Nat.add_0_r; auto; try congruence;
+        try (intros D; specialize (Hnd Al); congruence).
+    + apply Kdc_alive. exact Al.
+    + destruct C as [D C]. split; [exact D|]. cbn. apply Cc_app_k; auto. intros f [<-|[]]. reflexivity.
+    + unfold Xinv. cbn. congruence.
+  - (* XDisconnectFlag *)
+    destruct (negb (user_api_ok s) || xd s) eqn:U; [exact I|].
+    apply orb_false_elim in U. destruct U as [U U2]. apply negb_false_true in U. destruct (api_ok _ U) as [Al _].
+    apply wpT_ret. inv0 K Kd C X; [flagK K|exact Kd|exact C|unfold Xinv; cbn; congruence].
+  - (* XDisconnectRest *)
+    destruct (negb (user_api_ok s) || negb (xd s)) eqn:U; [exact I|].
+    apply orb_false_elim in U. destruct U as [U U2]. apply negb_false_true in U. destruct (api_ok _ U) as [Al _].
+    set (s1 := set_xd s false).
+    assert (K1 : Kinv s1) by flagK K.
+    assert (X1 : Xinv s1) by (unfold Xinv; cbn; congruence).
+    destruct (connection s1) as [c|] eqn:Hcn.
+    + eapply wpT_mono; [|apply (conn_shutdown_I s1 c false); auto; exact C].
+      intros s' P. eapply (post_inv0 s1); eauto.
+    + apply wpT_ret. inv0 K Kd C X1; auto; exact C.
+  - discriminate.
+  - discriminate.
+  - (* ConnectResult *)
+    apply wpT_ret. inv0 K Kd C X; [flagK K|exact Kd|exact C].
+  - (* EvWritable *)
+    destruct (k_chan s) as [[i [|]]|] eqn:Hch; try exact I. destruct (k_dead s) eqn:Hd; [exact I|].
+    eapply wpT_mono; [exact P0|]. eapply handleWrite_I; eauto.
+  - (* EvError *)
+    destruct (k_chan s) as [[i [|]]|] eqn:Hch; try exact I. destruct (k_dead s) eqn:Hd; [exact I|].
+    eapply wpT_mono; [exact P0|]. eapply handleError_I; eauto.
+  - (* TimerFire *)
+    destruct (min_due (timers s)) as [t0|] eqn:Hm; [|exact I]. destruct (has_dup _); [exact I|].
+    apply TimerFire_I; auto.
+  - (* RunPending *)
+    apply wpT_bind. eapply wpT_mono; [|apply run_n_I; exact HI].
+    intros s1 (K1 & Kd1 & St1 & C1 & Cr1 & X1). apply wpT_ret. inv0 K1 Kd1 C1 X1.
+    + eapply Kinv_same; [exact K1|]. unfold sameK. cbn. repeat split; auto.
+    + exact Kd1.
+    + destruct C1 as [D1 C1]. split; [exact D1|]. cbn. apply Cc_map; auto; intros x; destruct x; cbn; auto.
+  - (* RunOne *)
+    destruct (pending s) eqn:Hp; [exact I|].
+    eapply wpT_mono; [|apply run_one_I; exact HI]. intros s1 (K1 & Kd1 & St1 & C1 & Cr1 & X1). unfold Inv0. auto.
+  - (* Down *)
+    destruct (find_down (conns s) 0 None) as [c|] eqn:Hf; [|exact I].
+    destruct (find_down_spec _ _ _ _ Hf) as [E|(o & Ho & _ & Ha & Hg & Hl)]; [discriminate|]. rewrite Nat.sub_0_r in Ho.
+    eapply wpT_mono; [exact P0|]. eapply handleClose_I; eauto.
+    intros _. cbn in Hc. unfold loop_order in Hc. apply existsb_count_rc. destruct (existsb is_FReset (pending s)); auto; discriminate.
+  - (* UserHold *)
+    destruct (negb (user_api_ok s)) eqn:U; [exact I|]. destruct (connection s) as [c|] eqn:Hcn; [|exact I].
+    destruct (find_user (conns s) 0) eqn:Hu; [exact I|]. apply wpT_ret.
+    destruct C as [D C]. pose proof C as C0. cdestr C0. rewrite Hcn in *. destruct (Ccn c eq_refl) as (o & Ho & Ha & Hl & Hb).
+    pose proof (find_user_none _ _ Hu _ _ Ho) as U0.
+    inv0 K Kd C X.
+    + eapply Kinv_same; [exact K|apply sameK_conns].
+    + eapply Kdc_same; [exact Kd|apply sameK_conns].
+    + split; [exact D|]. cbn. rewrite Hcn. eapply Cc_set_user; eauto. intros _ _. lia.
+  - (* UserRelease *)
+    destruct (find_user (conns s) 0) as [c|] eqn:Hu; [|exact I].
+    destruct (nth_error (conns s) c) as [o|] eqn:Ho; [|exact I].
+    destruct ((refs s c =? 1)%nat && negb match cst o with CDisconnected => negb (creg o) | _ => false end) eqn:G; [exact I|].
+    apply wpT_ret. destruct C as [D C]. pose proof C as C0. cdestr C0.
+    destruct (find_user_some _ _ _ Hu) as (o' & Ho' & _ & Hpos). rewrite Nat.sub_0_r, Ho in Ho'. injection Ho' as <-.
+    assert (Ha : calive o = true).
+    { destruct (calive o) eqn:A; auto. pose proof (Cdd _ _ Ho A) as Z. unfold refsC in Z. rewrite Ho in Z. lia. }
+    destruct (Cst _ _ Ho Ha) as (S1 & S2 & S3).
+    inv0 K Kd C X.
+    + eapply Kinv_same; [exact K|apply sameK_conns].
+    + eapply Kdc_same; [exact Kd|apply sameK_conns].
+    + split; [exact D|]. cbn. eapply Cc_set_user; eauto. intros B _.
+      pose proof (Cr _ _ Ho Ha) as R. rewrite (refs_refsC _ _ D) in G.
+      apply andb_false_iff in G. destruct G as [G|G].
+      * apply Nat.eqb_neq in G. lia.
+      * apply negb_false_true in G. destruct (cst o); try discriminate. apply negb_true_iff in G.
+        destruct B as [B|B]; [cbn in B; discriminate|congruence].
+Qed.
+
+(* ------------------------------------------------------------------ the invariant holds initially and along every admissible step *)
+Lemma Inv_init : Inv init.
+Proof.
+  unfold Inv. split; [|split; [|split; [|split; [|split]]]].
+  - split; cbn; auto; try congruence; try lia; try (split; [reflexivity|discriminate]);
+      try (intros [H|H]; [discriminate|exfalso; apply H; reflexivity]).
+  - apply Kdc_alive. reflexivity.
+  - unfold Ksettled. cbn. discriminate.
+  - split; [reflexivity|]. cbn. split; cbn; try tauto; try discriminate.
+    + intros [|c] o; discriminate.
+    + intros [|c] o; discriminate.
+    + intros [|c] o; discriminate.
+    + intros [|c] o; discriminate.
+    + intros [|c] o; discriminate.
+  - intros [|c] o; discriminate.
+  - unfold Xinv. cbn. discriminate.
+Qed.
+
+Lemma Inv_set_now s t : Inv s -> Inv (set_now s t).
+Proof.
+  intros (K & Kd & St & C & Cr & X). unfold Inv. split; [|split; [exact Kd|split; [exact St|split; [exact C|split; [exact Cr|exact X]]]]].
+  eapply Kinv_same; [exact K|]. unfold sameK. cbn. repeat split; auto.
+Qed.
+
+Lemma step_I s o : Inv s -> contract s o = true ->
+  match step s o with Fault => False | Rejected => True | Ok s' _ => Inv s' end.
+Proof.
+  intros I Hc. unfold step. pose proof (step_core_I s o I Hc) as W.
+  destruct (step_core s o) as [m|]; [|exact Logic.I].
+  apply finish_I in W. destruct (finish m) as [[s1 e1]|]; [|exact W].
+  apply Inv_set_now. exact W.
+Qed.
